@@ -816,6 +816,7 @@ func runC12(c *Ctx) {
 	}
 	r.readLoopEndRules(c, true, "R8")
 	r.wrapperCloseRule(c)
+	tickerStopRule(c, "udp", "R10")
 	_ = sentConn
 	_ = strings.Join
 }
@@ -2015,4 +2016,72 @@ func isFreshBaseU(base ssa.Value, d int) bool {
 		}
 	}
 	return false
+}
+
+// tickerStopRule: stopping a ticker does not close its channel. A goroutine that blocks on the channel of a ticker
+// held in a struct field never learns that another function stopped it: it stays blocked for good (the goroutine of
+// the package is "left running" after everything was closed). Such a ticker may be stopped only by the function
+// that receives from it.
+func tickerStopRule(c *Ctx, pkg, id string) {
+	p := c.P
+	o := c.Obl(id, pkg+".tickers", "a ticker whose channel a goroutine of the package blocks on is stopped only by that goroutine itself (Stop does not close the channel: a receiver parked on it would never return)", 0)
+	type use struct {
+		fn *ssa.Function
+		in ssa.Instruction
+	}
+	recv := map[string][]use{} // struct.field -> functions receiving from <field>.C
+	stops := map[string][]use{}
+	key := func(v ssa.Value) string {
+		if fr, ok := asFieldLoad(v); ok {
+			return fr.SName + "." + fr.Field
+		}
+		return ""
+	}
+	for _, f := range p.Funcs {
+		if pkgOf(f) != pkg {
+			continue
+		}
+		root := f
+		for root.Parent() != nil {
+			root = root.Parent()
+		}
+		instrsOf(f, func(in ssa.Instruction) {
+			switch x := in.(type) {
+			case *ssa.UnOp:
+				if x.Op == token.ARROW {
+					if fr, ok := asFieldLoad(x.X); ok && fr.SName == "time.Ticker" && fr.Field == "C" {
+						if k := key(fr.Base); k != "" {
+							recv[k] = append(recv[k], use{f, in})
+						}
+					}
+				}
+			case *ssa.Select:
+				for _, st := range x.States {
+					if st.Dir == types.RecvOnly {
+						if fr, ok := asFieldLoad(st.Chan); ok && fr.SName == "time.Ticker" && fr.Field == "C" {
+							if k := key(fr.Base); k != "" {
+								recv[k] = append(recv[k], use{f, in})
+							}
+						}
+					}
+				}
+			case ssa.CallInstruction:
+				if sc := x.Common().StaticCallee(); sc != nil && fname(sc) == "(*time.Ticker).Stop" && len(x.Common().Args) > 0 {
+					if k := key(x.Common().Args[0]); k != "" {
+						stops[k] = append(stops[k], use{f, in})
+					}
+				}
+			}
+		})
+	}
+	for k, ss := range stops {
+		for _, s := range ss {
+			o.Site(s.in.Pos(), "Stop of %s in %s", k, fname(s.fn))
+			for _, rc := range recv[k] {
+				if rc.fn != s.fn {
+					o.Fail(s.in.Pos(), "%s stops the ticker %s while %s blocks on its channel: Stop does not close the channel, the receiver never returns", fname(s.fn), k, fname(rc.fn))
+				}
+			}
+		}
+	}
 }
